@@ -11,6 +11,7 @@ import (
 	"encoding/xml"
 	"fmt"
 	mrand "math/rand"
+	"strings"
 	"sync"
 	"time"
 
@@ -83,6 +84,37 @@ func spWindowCert() *idp.KeyPair {
 		spWin = idp.Cert(idp.RSAKey("sp"), "sp-window", world.T0.Add(2*time.Second), world.T0.Add(6*time.Second))
 	})
 	return spWin
+}
+
+// rotatingStore serves an expired pair on the first fetch and a valid pair afterwards.
+type rotatingStore struct {
+	mu    sync.Mutex
+	n     int
+	first memStore
+	then  memStore
+}
+
+func (r *rotatingStore) GetKeyPair() (*rsa.PrivateKey, []byte, error) {
+	r.mu.Lock()
+	defer r.mu.Unlock()
+	r.n++
+	if r.n == 1 {
+		return r.first.GetKeyPair()
+	}
+	return r.then.GetKeyPair()
+}
+
+var (
+	spExpOnce sync.Once
+	spExp     *idp.KeyPair
+)
+
+// spExpiredCert: another SP key whose certificate expired before T0.
+func spExpiredCert() *idp.KeyPair {
+	spExpOnce.Do(func() {
+		spExp = idp.Cert(idp.RSAKey("sp-old"), "sp-expired", world.T0.Add(-48*time.Hour), world.T0.Add(-24*time.Hour))
+	})
+	return spExp
 }
 
 // memStore is an X509KeyStore that is not a TLSCertKeyStore.
@@ -192,6 +224,9 @@ func (Xmlenc) Run(c *orch.Case) *orch.Outcome {
 	if in.Sub == "bind" {
 		spKP = spWindowCert()
 	}
+	if in.Keycfg == "rotating" {
+		spKP = spExpiredCert() // the sender encrypts to the certificate the store still serves first
+	}
 	spKey := spKP.Key.(*rsa.PrivateKey)
 
 	// plaintext
@@ -217,6 +252,16 @@ func (Xmlenc) Run(c *orch.Case) *orch.Outcome {
 	case "shape":
 		assertionEl = b.AssertionEl(world.Content("FA"), true)
 		plain = idp.Serialize(assertionEl, lay, rng)
+		switch in.Shape {
+		case "pt_comment":
+			plain = []byte("<!-- nothing but a comment -->")
+		case "pt_decl":
+			plain = []byte(`<?xml version="1.0" encoding="UTF-8"?>`)
+		case "pt_space":
+			plain = []byte(" \n\t ")
+		case "pt_text":
+			plain = []byte("just text")
+		}
 		if in.Shape == "pad_zero" || in.Shape == "pad_big" || in.Shape == "pad_block_plus" {
 			plain = []byte("<x/>") // short, so that a bogus pad length exceeds the data
 		}
@@ -226,7 +271,12 @@ func (Xmlenc) Run(c *orch.Case) *orch.Outcome {
 	}
 
 	eo := encOptsFor(&in, rng, spKP.DER, &spKey.PublicKey)
-	if in.Alg == "tripledes-cbc" && in.Shape == "ok" {
+	if in.Shape == "staleKey" {
+		eo.SymKey = make([]byte, idp.KeyLen(eo.DataAlg))
+		rand.Read(eo.SymKey)
+		eo.Detached = false // the first assertion carries its key inline
+	}
+	if in.Alg == "tripledes-cbc" && (in.Shape == "ok" || strings.HasPrefix(in.Shape, "pt_")) {
 		k, ct := tripleDES(plain)
 		eo.SymKey, eo.RawCipher = k, ct
 	}
@@ -297,12 +347,32 @@ func (Xmlenc) Run(c *orch.Case) *orch.Outcome {
 	case "bothDiff":
 		sp.SPKeyStore = dsig.TLSCertKeyStore{Certificate: [][]byte{w.SP2.DER}, PrivateKey: w.SP2.Key}
 		sp.SetSPKeyStore(&saml2.KeyStore{Signer: spKey, Cert: certBytes})
+	case "rotating":
+		fresh := spWindowCert()
+		sp.SPKeyStore = &rotatingStore{first: memStore{spKey, certBytes}, then: memStore{fresh.Key.(*rsa.PrivateKey), fresh.DER}}
 	}
 
+	var second *etree.Element
+	if in.Shape == "staleKey" {
+		// a second EncryptedAssertion: detached key naming (and wrapped to) a foreign certificate, payload under the
+		// FIRST assertion's session key -- decrypts only if state leaks from the first to the second
+		sym := eo.SymKey
+		so := idp.EncOpts{DataAlg: eo.DataAlg, KeyTransport: idp.KtOAEP, Detached: true, Recipient: w.SP2.DER,
+			Pub: &w.SP2.Key.(*rsa.PrivateKey).PublicKey, SymKey: sym}
+		fa := ownSigned(b, w, world.Content("GA2"), true)
+		var err error
+		second, err = b.EncryptedAssertion(idp.Plain(fa), so)
+		if err != nil {
+			orch.Fatal("xmlenc: second: %v", err)
+		}
+	}
 	build := func(kid *etree.Element) string {
 		bb := idp.NewBuilder(lay, c.Seed+3)
 		root := bb.ResponseEl(genuineRoot())
 		root.AddChild(kid)
+		if second != nil && kid == ee {
+			root.AddChild(second.Copy())
+		}
 		if in.Rootsigned {
 			mustSign(root, idp.DefaultSig(w.IdpA.Key, w.IdpA.DER))
 		}
